@@ -74,7 +74,7 @@ func site(st string) string {
 	for _, l := range strings.Split(st, "\n") {
 		l = strings.TrimSpace(l)
 		if strings.HasPrefix(l, "github.com/tjfoc/gmsm/") {
-			if i := strings.Index(l, "("); i > 0 {
+			if i := strings.LastIndex(l, "("); i > 0 {
 				l = l[:i]
 			}
 			return strings.TrimPrefix(l, "github.com/tjfoc/gmsm/")
